@@ -22,6 +22,12 @@ CLAIMED = {
          "constraints computed in Asn1Types.tla) define the expected octets for every (type, value) TLC enumerates; Encode events "
          "recorded from the generated code are accepted by the trace specification only when byte-identical.",
          "TLA+ reference encoders (DER/UPER/OER) + TLC enumeration + byte-exact trace validation"),
+ "C05": ("model_checking", "7 C05",
+         "Codec.tla models a restartable decoding session (stream, position, per-call contract: WMORE with consumed <= presented while "
+         "octets are missing; OK, everything consumed and the value delivered once they are all there). TLC generates, for every (type, "
+         "value), every 2-chunk split of the reference encoding (thorough: every chunking of short encodings, octet-wise feeding); the "
+         "driver re-presents unconsumed octets as the manual prescribes and every decoder call is one trace event validated by TLC.",
+         "TLA+ restartable-decoder contract + TLC-enumerated chunk schedules + per-call trace validation"),
 }
 
 checks = []
